@@ -49,7 +49,8 @@ class Layout:
     def run(self, name, args, env, script, timeout=60, preload=None, cwd=None, extra_env=None, preexec=None):
         with open(self.script, "w") as f:
             json.dump(_strip_intents(script), f, allow_nan=False)
-        e = {"PATH": "/usr/bin:/bin", "VPBP_SCRIPT": self.script}
+        e = dict(vp.hostile_env())      # (CI variables, a stale $PWD, stale CNB_* path variables of an outer run, ...: none of them is an input)
+        e.update({"PATH": "/usr/bin:/bin", "VPBP_SCRIPT": self.script})
         e.update(env)
         if extra_env:
             e.update(extra_env)
